@@ -51,6 +51,8 @@ CONFIGS = {
     # tracing compiled in (what cmake builds unless GRAPHITE2_NTRACING is set): only the rule driver is parsed (C04 DETACH/garbage)
     'tracepass': {'defs': ['NDEBUG'], 'vm': 'direct', 'units': ['Pass.cpp']},
     'tracejust': {'defs': ['NDEBUG'], 'vm': 'direct', 'units': ['Justifier.cpp']},
+    # ... and the two API units that take tags (C20 / C18 TAGNORM: a tracing-only branch must normalise too)
+    'traceapi': {'defs': ['NDEBUG'], 'vm': 'direct', 'units': ['gr_face.cpp', 'gr_segment.cpp', 'Face.cpp']},
     'tele':     {'defs': ['GRAPHITE2_NTRACING', 'NDEBUG', 'GRAPHITE2_TELEMETRY'], 'vm': 'direct',
                  'units': ['gr_face.cpp', 'Face.cpp', 'Pass.cpp', 'Code.cpp', 'gr_logging.cpp']},
 }
@@ -117,7 +119,7 @@ def source_digest():
 
 def cache_dir(cfg, digest=None):
     d = digest or source_digest()
-    h = hashlib.sha256((FACTS_VERSION + d + cfg + ' '.join(flags_for(cfg))).encode()).hexdigest()[:24]
+    h = hashlib.sha256((FACTS_VERSION + d + cfg + ' '.join(flags_for(cfg)) + '|' + ' '.join(CONFIGS[cfg].get('units') or ())).encode()).hexdigest()[:24]
     return os.path.join(CACHE, h)
 
 
